@@ -547,6 +547,7 @@ pub fn run_c03(a: &Args) {
 }
 
 /// C11: the bytes of each text field inside the real encoded frame
+fn raw_next_frame(compressed: bool) -> Vec<u8> { if compressed { vec![1, 3, 2, 3] } else { vec![4, 3, 2, 3] } }
 pub fn run_c11(a: &Args) {
     if let Some(r) = &a.replay { if r.starts_with("ver ") || r.starts_with("sethist ") || r.starts_with("mso ") {
         let mut st = Stats::default(); typed_api_checks("C11", a, &mut st);
@@ -605,6 +606,13 @@ pub fn run_c11(a: &Args) {
                 }
             }
             if let Dec::Got(p2, _) = decode_buf(compressed, b) { let d = format!("{:?}", p2); if text.is_ascii() && !text.is_empty() && !text.contains('^') && encoded.len() <= n.saturating_sub(1) && !d.contains(&format!("{:?}", text)) { st.fail(format!("[C11] {} decoded text differs from the written ASCII text", kind.name), id.clone()); } }
+            // the text ends where its frame ends: with another frame right behind it in the receive buffer (a text that fills its frame has no
+            // NUL to stop at) the decoded packet is the same and exactly the frame is consumed
+            { let mut two = b.clone(); two.extend_from_slice(&raw_next_frame(compressed)); two.extend_from_slice(b"tail");
+              match (decode_buf(compressed, b), decode_buf(compressed, &two)) {
+                  (Dec::Got(p1, n1), Dec::Got(p2, n2)) => if n1 != n2 || format!("{:?}", p1) != format!("{:?}", p2) { st.fail(format!("[C11] {} field {idx}: with another frame behind it in the buffer the frame decodes differently ({} bytes consumed instead of {}): {:?}", kind.name, n2, n1, format!("{:?}", p2).chars().take(200).collect::<String>()), format!("{id} next")); },
+                  (d1, d2) => if cls_string(&d1).split(' ').next() != cls_string(&d2).split(' ').next() { st.fail(format!("[C11] {} field {idx}: with another frame behind it in the buffer the outcome changes from {} to {}", kind.name, cls_string(&d1), cls_string(&d2)), format!("{id} next")); },
+              } }
         } else { st.fail(format!("[C11] {} with a {}-byte text does not encode", kind.name, encoded.len()), id.clone()); }
         if text.is_ascii() { Some((format!("settext {} {} {} {}", mode_tag(compressed), hex(&base), idx, hex(text.as_bytes())), enc_string(&e))) } else { None }
     };
